@@ -24,6 +24,27 @@ CLAIMED = {
  "C15": ("dominance analysis of the forceFailureErr test over every state-touching instruction in each data method (classified by SDK operation name) combined with the lockset result; post-dominance in the batch error handler; table checks of the condition map and its single writer; sibling comparison v1/v2",
          "Structural: while a failure is configured every direct data method returns the configured error value itself before touching any state (so nothing can change); batch write routes every request through the checked single-item methods and its handler never drops a request; conditions are exhaustive, None↦nil, single writer (reversible). One known finding: v1 has no BatchGetItem.",
          "go/ssa; data operations identified by DynamoDB API names", "DESIGN.md §4 C15"),
+ "C10": ("table agreement / exhaustiveness over go/types: the SDK's AttributeValue union is enumerated and matched against the type tests of the v2 conversion; presence tests classified (nil vs len) per field of types.Item; composite-literal field tables of the v1 conversions; Type()/ToDynamoDB tag agreement; copy-loop completeness on SSA",
+         "Structural: every conversion on the write/read path is total over the ten types, maps type X to X, and decides presence by nil-ness rather than emptiness (sets excepted, with the reason). Two known findings (empty list / empty map through v2, asserted by baseline tests). Value fidelity inside a branch, numerals (C12) and set equality are not decided.",
+         "go/types view of the pinned SDK packages; DynamoDB has no empty sets", "DESIGN.md §4 C10"),
+ "C13": ("idiom classification of the composite-key rendering (injective vs raw join), error-discipline census over all GetKey call sites, switch-label/field agreement in the key accessors, dominance of a key re-derivation before the update commit, key provenance",
+         "Structural necessary conditions of key fidelity; three known findings (non-injective '.' join; discarded error in parseStartKey; UpdateItem may change a key attribute – the last blocked by a baseline test). Does not decide per-type rendering injectivity.",
+         "go/ssa", "DESIGN.md §4 C13"),
+ "C14": ("ownership (T-COPY) analysis on SSA: origin classification fresh/alias of every reference-typed component stored into the result of each attribute-value conversion (discovered by signature), escape check of singleton addresses, output-provenance tracing in the client data methods",
+         "Sufficient for the boundary it covers: no pointer, slice or map stored by, or returned from, the adapters' conversions is shared with caller-owned structures, and client outputs carry stored data only through those conversions. Relies on Go string immutability; user callbacks excluded.",
+         "go/ssa; conversions discovered by signature (types.Item vs SDK AttributeValue)", "DESIGN.md §4 C14"),
+ "C16": ("table equality of the reserved-word map against an embedded reference list, dominance of the reserved-word test over the single environment-lookup funnel with call-site census of the toplevel flag, idiom classification of the used-placeholder test, constant/regex tables, batch-limit counter analysis on SSA phis",
+         "Structural; five known findings recorded (substring-based used-test x2 and unbound placeholders – both blocked by baseline tests that depend on the lax behaviour – and the missing key-condition shape validation x2).",
+         "reference list is a transcription of the AWS page (cannot be re-fetched offline)", "DESIGN.md §4 C16"),
+ "C18": ("dominance and provenance analysis of CreateTable/DeleteTable, field census of Client.tables, constructor freshness, description plumbing (SSA origins + composite-literal tables), census of stores through package-level variables and escaping singleton addresses, hygiene scan",
+         "Structural: catalogue discipline (exists-test before insert, only fully built tables published, checked lookups), fresh containers per table, description fields plumbed from the live containers, no mutable package-level state shared between clients, data methods operate on the table named by the request.",
+         "go/ssa + go/ast", "DESIGN.md §4 C18"),
+ "C19": ("field-provenance (T-FLOW) of the single-item requests built by the batch dispatchers, loop-condition analysis (every request visited), post-dominance in the error handler, error-origin analysis in the BatchGetItem helper",
+         "By construction: the batch is literally its decomposition into the client's own checked single-item calls. Two known findings: v2 BatchGetItem reports absent keys as unprocessed (asserted by a baseline test) and v1 has no BatchGetItem.",
+         "go/ssa", "DESIGN.md §4 C19"),
+ "C20": ("sibling agreement of registry key construction (separator, normaliser, kind→map) between registration and lookup on SSA, effect exclusion on the normaliser (no sort / map iteration), dominance of found-edges over callback invocation, fallback discipline, field provenance of MatchInput/UpdateInput, propagation of interpreter settings",
+         "Structural reasons why exactly the registered callback is reached and why a miss falls back or fails safely. Which callback runs for a concrete request at run time is not computed.",
+         "go/ssa", "DESIGN.md §4 C20"),
 }
 
 PENDING = {}
